@@ -320,6 +320,33 @@ def d46():
     return None if f.vdims is None else f"vdims {f.vdims}"
 
 
+def d123():
+    m = df.Mesh(region=df.Region(p1=(0, 0), p2=(4, 3), dims=("n", "y")), n=(4, 3), bc="neumann")
+    f = df.Field(m, nvdim=1, value=lambda p: p[0] ** 2)
+    got = f.diff("n").array[:, 0, 0].tolist()
+    if got != [1.0, 3.0, 5.0, 7.0]:
+        return f"diff('n') of n**2 on a 'neumann' mesh with an axis called 'n' is {got} (ring), expected [1, 3, 5, 7]"
+    m = df.Mesh(region=df.Region(p1=(0, 0, 0), p2=(4, 3, 3), dims=("x", "y", "xy")), n=(4, 3, 3), bc="xy")
+    got = df.Field(m, nvdim=1, value=lambda p: p[2] ** 2).diff("xy").array[0, 0, :, 0].tolist()
+    return None if got == [1.0, 3.0, 5.0] else f"diff('xy') on dims (x, y, xy) with bc='xy' is {got}, expected [1, 3, 5]"
+
+
+def d124():
+    r = df.Region(p1=(0, 0, 0), p2=(5_000_000, 3_000_000, 2_000_000))
+    return None if r.volume == 3 * 10 ** 19 else f"Region.volume of integer corners (5e6, 3e6, 2e6) is {r.volume}"
+
+
+def d58():
+    r = df.Region(p1=(0, 0), p2=(4, 6), dims=("X", "y"))
+    m = df.Mesh(region=r, n=(4, 3), bc="y")
+    try:
+        m.rotate90("X", "y", inplace=True)
+    except Exception as e:
+        if list(m.n) != [4, 3]:
+            return f"refused in-place rotate90 ({type(e).__name__}) left n={m.n.tolist()}"
+    return None
+
+
 ALL = {
     "D1": ("C13", d1), "D2": ("C13", d2), "D3": ("C12", d3), "D4": ("C12", d4),
     "D5": ("C08", d5), "D6": ("C08", d6), "D7": ("C08", d7), "D8": ("C03", d8),
@@ -327,6 +354,7 @@ ALL = {
     "D14": ("C09", d14), "D15": ("C09", d15), "D16": ("C11", d16), "D20": ("C19", d20), "D21": ("C13", d21), "D22": ("C08", d22), "D23": ("C03", d23), "D31": ("C10", d31), "D41": ("C02", d41), "D43": ("C02", d43), "D44": ("C02", d44),
     "D101": ("C01", d101), "D111": ("C08", d111), "D113": ("C13", d113), "D114": ("C12", d114),
     "D45": ("C02", d45), "D46": ("C02", d46),
+    "D123": ("C04", d123), "D124": ("C01", d124), "D58": ("C13", d58),
 }
 
 
